@@ -1,6 +1,7 @@
 package main
 
 import (
+	"errors"
 	"fmt"
 	"sort"
 	"strings"
@@ -41,6 +42,7 @@ type c24op struct {
 	ID string `json:"id,omitempty"` // fresh | own | stale | zero
 	M  uint32 `json:"mirror,omitempty"`
 	P  uint16 `json:"listenPort,omitempty"`
+	S  string `json:"solicited,omitempty"` // daemon mode: the ConnectEvent says solicited | unsolicited
 }
 
 func (o c24op) String() string {
@@ -48,6 +50,9 @@ func (o c24op) String() string {
 	case "pending":
 		return "pending(" + o.A + ")"
 	case "connected":
+		if o.S != "" {
+			return "ConnectEvent(" + o.A + "," + o.ID + "," + o.S + ")"
+		}
 		return "connected(" + o.A + "," + o.ID + ")"
 	case "introduced":
 		return fmt.Sprintf("introduced(%s,%s,mirror=%d,listenPort=%d)", o.A, o.ID, o.M, o.P)
@@ -63,6 +68,8 @@ type c24item struct {
 }
 
 type c24live struct {
+	dm          *daemon.Daemon // daemon mode: connect / disconnect events go through the daemon's handlers
+	stop        func()
 	c           *daemon.Connections
 	m           *model.ConnModel
 	nextID      uint64
@@ -463,13 +470,22 @@ func (x *c24ctx) apply(l *c24live, op c24op, check bool) string {
 		case "pending":
 			rconn, rerr = daemon.VerifPending(l.c, op.A)
 		case "connected":
+			if l.dm != nil {
+				daemon.VerifOnConnectEvent(l.dm, op.A, id, op.S == "solicited")
+				break
+			}
 			rconn, rerr = daemon.VerifConnected(l.c, op.A, id)
 		case "introduced":
 			rconn, rerr = daemon.VerifIntroduced(l.c, op.A, id, c24intro(op.M, op.P))
 		case "remove":
+			if l.dm != nil {
+				daemon.VerifOnDisconnectEvent(l.dm, op.A, id)
+				break
+			}
 			rerr = daemon.VerifRemove(l.c, op.A, id)
 		}
 	})
+
 	var rej []string
 	switch op.K {
 	case "pending":
@@ -493,7 +509,16 @@ func (x *c24ctx) apply(l *c24live, op c24op, check bool) string {
 		l.div, l.lastKey = nil, ""
 		return ""
 	}
+	// the daemon's handlers return nothing: for events delivered through them the verdict is taken from the model and only the
+	// resulting maps (and getters) are judged
+	blind := l.dm != nil && (op.K == "connected" || op.K == "remove")
+	if blind && !panicked && len(rej) > 0 {
+		rerr = errors.New(rej[0])
+	}
 	got := errName(rerr)
+	if blind && len(rej) > 0 {
+		got = rej[0]
+	}
 	outcome := op.K + ":" + got
 	cse := func() interface{} {
 		return map[string]interface{}{"events": append([]c24op{}, l.hist...), "trace": fmt.Sprint(l.hist)}
@@ -527,7 +552,7 @@ func (x *c24ctx) apply(l *c24live, op c24op, check bool) string {
 		}
 	}
 	// returned connection
-	if !panicked && op.K != "remove" && check {
+	if !panicked && op.K != "remove" && check && !blind {
 		if rerr != nil && rconn != nil {
 			x.r.Failf("Connections."+op.K+":returns-connection-with-error", cse(), "after %v: non-nil connection together with %v", l.hist, rerr)
 		}
@@ -693,6 +718,10 @@ func (x *c24ctx) ops(l *c24live) []c24op {
 		ops = append(ops, c24op{K: "pending", A: a})
 	}
 	for _, a := range c24Addrs {
+		if l.dm != nil {
+			ops = append(ops, c24op{K: "connected", A: a, ID: "fresh", S: "solicited"}, c24op{K: "connected", A: a, ID: "fresh", S: "unsolicited"})
+			continue
+		}
 		ops = append(ops, c24op{K: "connected", A: a, ID: "fresh"})
 	}
 	for _, a := range c24Addrs {
@@ -757,6 +786,25 @@ func c24(r *engine.Run) {
 	}
 	res := engine.BFS(sp)
 
+	// second exploration: the same events, but connect and disconnect events are delivered through the daemon's own handlers
+	// (onConnectEvent, onDisconnectEvent) on the Connections of a Daemon - a caller that touches the records it gets back from
+	// Connections is part of what keeps the maps right
+	spD := sp
+	spD.New = func() *c24live {
+		dm, stop := daemon.VerifMiniDaemon()
+		return &c24live{dm: dm, stop: stop, c: daemon.VerifDaemonConnections(dm), m: model.NewConnModel(), nextID: 1}
+	}
+	spD.Close = func(l *c24live) {
+		if l.stop != nil {
+			l.stop()
+		}
+	}
+	spD.MaxDepth = r.Pick(4, 6)
+	resD := engine.BFS(spD)
+	for k, v := range resD.Outcomes {
+		res.Outcomes["daemon:"+k] += v
+	}
+
 	// vacuity guards
 	need := []string{"pending:ok", "pending:" + model.RExists, "connected:ok", "connected:" + model.RAlreadyConnected,
 		"connected:" + model.RAlreadyIntroduced, "introduced:ok", "introduced:" + model.RNotExist, "introduced:" + model.RStateNotConnected,
@@ -781,6 +829,8 @@ func c24(r *engine.Run) {
 		"a state in which conns, mirrors, gnetIDs or a non-zero ipCounts/listenAddrs entry differ from the model is reported at the event that introduced the difference and is not expanded further (leaked zero ipCounts entries and listenAddrs[\"\"] do not influence the four methods and are explored through); only NEW differences of a step are reported",
 		"ConnectedAt (wall clock) is not observed by the property and is left out of the state key")
 	cov := res.Coverage("every event of the alphabet (3 pending, 3 connected, up to 81 introduced, up to 9 remove) is applied to the real daemon.Connections in every distinct state; states are replayed from a fresh NewConnections(); maps + error + getters compared with the reference model after every event")
+	cov["through_daemon_handlers"] = map[string]interface{}{"what": "same events, ConnectEvent (solicited / unsolicited) and DisconnectEvent delivered through Daemon.onConnectEvent / onDisconnectEvent of a Daemon with a real offline gnet pool; maps and getters compared with the model after every event",
+		"states": resD.States, "transitions": resD.Transitions, "max_depth": spD.MaxDepth, "exhaustive": resD.Exhaustive}
 	cov["max_depth"] = sp.MaxDepth
 	cov["events_per_state_max"] = 96
 	cov["transitions_removing_last_connection"] = x.emptySeen
